@@ -916,3 +916,14 @@ SPECS["C05"]["level_text"] += (' Model identity (audit gap 6): the Lean driver o
     'the op words added for the rest of the public API (from_iter, ZeroCopySink, ByteArena::clone, Backref::default, consumer calls through a StableIovec) '
     'are executed as the WOp steps they are proved equal to, and front / iteration / iovs / StableIovec::iovs hand out slices of the stable prefix only, so '
     'exposed_live covers them.')
+# rough_tlv: MessageView::inner / into_inner, Tag conversions and ordering (Model/RoughTlvApi.lean)
+SPECS["C12"]["lean_modules"] += ["Woodpile.Props.C12A"]
+SPECS["C12"]["theorems"] += [
+    "Woodpile.Props.C12A.inner_is_input",
+    "Woodpile.Props.C12A.tag_value_of_u32",
+    "Woodpile.Props.C12A.tag_of_value",
+    "Woodpile.Props.C12A.tag_order_is_value_order",
+]
+SPECS["C12"]["level_text"] += (" Props/C12A (track apigaps): inner()/into_inner() return the bytes the view was built from (printed and compared on every "
+    "view); Tag as the crate stores it (4 bytes): u32 <-> Tag <-> [u8;4] round trips, Ord/PartialOrd = order of the little-endian values (op `tag a b` "
+    "of the tlvview family: every From/Into impl, new, new_from_u32, value, cmp, partial_cmp, <, == on pairs whose byte order and value order differ).")
